@@ -221,13 +221,13 @@ fn w1_cfg(args: &Args, prop: Prop) -> BatchCfg {
     let tier = args.get("tier", "quick");
     let thorough = tier == "thorough";
     let default_runs = match (prop, thorough) {
-        (Prop::C02, false) => 30_000,
+        (Prop::C02, false) => 40_000,
         (Prop::C02, true) => 1_500_000,
-        (Prop::C03, false) => 5_000,
+        (Prop::C03, false) => 12_000,
         (Prop::C03, true) => 400_000,
-        (Prop::C19, false) => 20_000,
+        (Prop::C19, false) => 80_000,
         (Prop::C19, true) => 1_000_000,
-        (Prop::C20, false) => 50_000,
+        (Prop::C20, false) => 400_000,
         (Prop::C20, true) => 3_000_000,
     };
     BatchCfg {
